@@ -987,9 +987,10 @@ struct Driver : Sim {
     }
 
     void do_junk(Cl& k, unsigned v) {
-        static const char* kJ[] = {"PONG\n", "\n", "\r\n", "HELLO\n", "REGISTER\n", "CONNECT onlyone\n", "CONNECT a b c\n", "register x\n", " REGISTER 00\n", "PONG extra\r\n", "XY", "CONNECT zz zz\n", "PING\n"};
-        const char* s = kJ[v % 13];
-        c.note("J%d:%u", k.idx, v % 13);
+        static const char* kJ[] = {"PONG\n", "\n", "\r\n", "HELLO\n", "REGISTER\n", "CONNECT onlyone\n", "CONNECT a b c\n", "register x\n", " REGISTER 00\n", "PONG extra\r\n", "XY", "CONNECT zz zz\n", "PING\n",
+                                   "    \n", "\t\n", " \t \r\n", " \n", "PONG \n", "\tPONG\n"};   // blank-only lines, blanks around a verb
+        const char* s = kJ[v % 19];
+        c.note("J%d:%u", k.idx, v % 19);
         send(k, s);
     }
 
